@@ -329,6 +329,7 @@ where
           let rng = TestRng::from_seed(RngAlgorithm::ChaCha, &shard_seed(ctx, name, shard));
           let mut runner = TestRunner::new_with_rng(cfg, rng);
           let strat = mk(ctx.tier);
+          let journal: Option<String> = std::env::var("VERIF_JOURNAL").ok().map(|_| format!("{}/replays/{}-journal-{}.json", verif_root(), ctx.prop, shard));
           let froze_at: RefCell<Option<Instant>> = RefCell::new(None);
           let res = runner.run(&strat, |c| {
             // another shard already failed: finish quickly
@@ -343,6 +344,12 @@ where
             }
             let mut st = stats.borrow_mut();
             st.evals(1);
+            if let Some(jp) = &journal {
+              // an abort (not an unwind) cannot be caught: leave the case behind for run.sh
+              if let Ok(v) = serde_json::to_value(&c) {
+                let _ = std::fs::write(jp, json!({"property": ctx.prop, "subcheck": name, "case": v, "reason": "the process died (abort / stack overflow / segfault) while this case was running"}).to_string());
+              }
+            }
             let r = match no_panic(|| oracle(&c, &mut st)) {
               Ok(r) => r,
               Err(p) => Err(format!("panic: {p}")),
@@ -711,6 +718,11 @@ pub fn run_property(p: &Property, ctx: &Ctx, only_sub: Option<&str>) -> RunResul
     );
   }
 
+  if std::env::var("VERIF_JOURNAL").is_ok() {
+    for sh in 0..64 {
+      let _ = std::fs::remove_file(format!("{}/replays/{}-journal-{}.json", verif_root(), p.id, sh));
+    }
+  }
   for l in &known_lines {
     println!("{l}");
   }
